@@ -127,7 +127,42 @@ def predicted(text):
     return tuple(T.model_lite(r, T.denoted_defect) for r in roots)
 
 
-def judge(text, case, fails, multiple):
+def scramble(roots):
+    """Everything a caller may do in place to a parsed tree: parameters, list values, rule parts, children."""
+    for c in roots:
+        for x in c.walk():
+            for name in list(x.keys()):
+                held = x[name]
+                for v in (held if isinstance(held, list) else [held]):
+                    try:
+                        prm = getattr(v, "params", None)
+                        if prm is not None:
+                            for k in list(prm.keys()):
+                                if isinstance(prm[k], list):
+                                    prm[k].append("zz")
+                            prm.pop("TZID", None)
+                            prm.pop("VALUE", None)
+                            prm["X-SCRAMBLED"] = "1"
+                        for attr in ("dts", "cats"):
+                            lst = getattr(v, attr, None)
+                            if isinstance(lst, list) and lst:
+                                lst.reverse()
+                                lst.append(lst[0])
+                        if isinstance(v, dict):
+                            for k in list(v.keys()):
+                                if isinstance(v[k], list):
+                                    v[k].append(v[k][0] if v[k] else 1)
+                    except Exception:  # noqa: BLE001 - scrambling is best effort, the oracle is the second parse
+                        pass
+                if isinstance(held, list):
+                    held.append(held[0])
+            x["X-SCRAMBLED"] = "1"
+        for x in c.walk():
+            x.subcomponents.reverse()
+            x.subcomponents[:] = x.subcomponents[:1]
+
+
+def judge(text, case, fails, multiple, history=False):
     """Run oracles (a) and (b) on one input text.  Returns an outcome label."""
     # what the text denotes, if it is well-formed
     try:
@@ -164,6 +199,20 @@ def judge(text, case, fails, multiple):
     except Exception as e:  # noqa: BLE001
         fails.append(fail("serialising-the-parsed-tree-raises", case, "bytes", f"{type(e).__name__}: {e}"))
         return out + "+ser-raises"
+    if history:
+        # parsing is a function of the text: whatever a caller did in place to an earlier result, parsing the same
+        # text again gives the same tree
+        scramble(roots)
+        try:
+            again = Component.from_ical(text, multiple=multiple)
+            again = again if multiple else [again]
+            snap3 = tuple(snapshot(c) for c in again)
+            s3 = b"".join(c.to_ical() for c in again)
+            if snap3 != snap1 or s3 != s1:
+                fails.append(fail("second-parse-of-the-same-text-differs-after-mutating-the-first-result", case,
+                                  (snap1, s1)[snap3 == snap1], (snap3, s3)[snap3 == snap1]))
+        except Exception as e:  # noqa: BLE001
+            fails.append(fail("second-parse-of-the-same-text-raises", case, "same tree", f"{type(e).__name__}: {e}"))
     try:
         roots2 = Component.from_ical(s1, multiple=True)
     except ValueError as e:
@@ -236,7 +285,7 @@ def run_case(case):
             except ValueError:
                 pass
             return {"state": ("forest-rejected", len(forest)), "trans": 1, "nontrivial": True, "outcome": "forest-single-rejected", "fails": fails}
-        outcome = judge(text, case, fails, multiple)
+        outcome = judge(text, case, fails, multiple, history=True)
         nt = sum(1 for _ in lines) > 3
     elif kind == "line":
         _, provider, container, ti, s = case
@@ -246,7 +295,7 @@ def run_case(case):
     elif kind == "typed":
         _, provider, container, i = case
         text = wrap(container, [TYPED[i]])
-        outcome = judge(text, case, fails, False)
+        outcome = judge(text, case, fails, False, history=True)
         nt = True
     elif kind == "folded":
         # "any folding": the whole document re-folded every j characters with ONE kind of fold whitespace and line ending
@@ -258,7 +307,7 @@ def run_case(case):
     else:
         _, provider, container, idx = case
         text = wrap(container, [MENU40[i] for i in idx])
-        outcome = judge(text, case, fails, False)
+        outcome = judge(text, case, fails, False, history=True)
         nt = len(idx) >= 2
     return {"state": (kind, text, outcome), "trans": 5, "nontrivial": nt, "outcome": f"{kind}:{outcome}", "fails": fails}
 
@@ -273,6 +322,7 @@ def run(ctx):
                 f"and all forests of two trees with <= {n - 1} nodes in total; (2) 10 line templates x every string over a "
                 f"14-symbol alphabet with |s| <= {k} x 3 containers, and {len(TYPED)} typed lines x 3 containers x 2 providers; (3) every "
                 f"ordered pair" + ("" if ctx.quick else " and triple (first 16 lines)") + f" of a {len(MENU40)}-line menu x 3 containers. "
+                "For trees, typed lines and menu cases additionally the history parse(T); mutate the result in place (parameters, list values, rule parts, children); parse(T) again -> same tree and bytes. "
                 "non-trivial = nested tree / string with a delimiter or escape character / >= 2 lines.")
     ctx.bounds = {"max_nodes": n, "alphabet": [repr(c) for c in SIGMA], "k": k, "typed_lines": len(TYPED), "menu": len(MENU40)}
     ctx.assumptions += ["well-formed = accepted by the strict reference reader (refmodel/tree.py + rfc_text.parse_line); exactness is "
